@@ -84,6 +84,7 @@ def make_replay(prop, rec, failed, out_dir):
     os.makedirs(out_dir, exist_ok=True)
     # native rendering of the contract
     ctx = gen.bind(fn, job["target"], job, native=True)
+    ctx.variant = task.get("variant")
     fn.row.build(ctx)
     gen.harness_text(ctx, job["target"]["name"])   # computes ctx.obs
     inputs, has_input = inputs_from_trace(failed.get("trace"), ctx.obs)
@@ -134,6 +135,15 @@ def make_replay(prop, rec, failed, out_dir):
             continue
         size = job["target"]["params"][k].get("pointee_size") if kind in ("this", "ptr") else None
         vals = inputs.get(k, {})
+        eb = getattr(ctx, "end_is_begin_plus", None)
+        if kind == "mem" and eb and eb[0] == cname:
+            # the one-past-the-end pointer of the array another parameter addresses
+            bk = [kk for kk, (kd, cn, ct) in enumerate(ctx.ir_order) if cn == eb[1]][0]
+            D.append("  %s a%d = a%d + %d;" % (cpptype, k, bk, eb[2]))
+            D.append("  pre_args[%d] = (unsigned char*)a%d; post_args[%d] = (unsigned char*)a%d;" % (k, k, k, k))
+            argnames.append("a%d" % k)
+            k += 1
+            continue
         if kind == "mem":
             nbytes = getattr(ctx, "mem_bytes", {}).get(cname, 64)
             by = bytearray(nbytes)
